@@ -80,6 +80,7 @@ package getoptions
 //@   props C02 C05 C06 C19
 //@   requires addopt.nonnil: n != nil && n.ChildOptions != nil && opt != nil
 //@   requires addopt.tbl: forall k string :: (k in n.ChildOptions) ==> n.ChildOptions[k] != nil
+//@   requires addopt.named {C18}: name == opt.Name || ((opt.Name in n.ChildOptions) && n.ChildOptions[opt.Name] == opt)
 //@   maypanic addopt.empty: name == ""
 //@   maypanic addopt.dup: name in n.ChildOptions
 //@   maypanic addopt.minmax: IsMultiKind(opt.OptType) && !(1 <= opt.MinArgs && opt.MinArgs <= opt.MaxArgs)
@@ -118,6 +119,9 @@ package getoptions
 //@     && (forall k string :: (k in n.ChildOptions) ==> OptOK(n.ChildOptions[k]))
 //@     && (forall k string :: (k in n.ChildCommands) ==> n.ChildCommands[k] != nil)
 //@     && (forall i int :: 0 <= i && i < len(n.SuggestionFns) ==> n.SuggestionFns[i] != nil)
+//@     && NamesOK(n)
+// Every record of a table is registered under its own name (aliases are additional keys of the same record).
+//@ spec func NamesOK(n *programTree) bool = forall k string :: (k in n.ChildOptions) ==> (n.ChildOptions[k].Name in n.ChildOptions) && n.ChildOptions[n.ChildOptions[k].Name] == n.ChildOptions[k]
 //@ spec func UnkOK() bool = forall n *programTree :: n != nil ==> (forall i int :: 0 <= i && i < len(n.UnknownOptions) ==> n.UnknownOptions[i] != nil)
 //@ spec func TreeOK() bool = forall n *programTree :: n != nil ==> NodeOK(n)
 //
@@ -391,14 +395,28 @@ package getoptions
 // The help text of a node in the current definition state (result of helpOutput with the default sections).
 //@ func helpOutput
 //@   props C11 C18 C19
-//@   trusted
-//@   requires node != nil
+//@   requires node != nil && NodeOK(node)
 //@   modifies
-//@   ensures len(sections) == 0 ==> result == helptext(node)
+//@   defines len(sections) == 0 ==> result == helptext(node)
+//@   loop "for k, option := range node.ChildOptions"
+//@     invariant hopts.sound {C18}: forall i int :: 0 <= i && i < len(options) ==> options[i] != nil && (options[i].Name in $seen) && (options[i].Name in node.ChildOptions) && node.ChildOptions[options[i].Name] == options[i]
+//@     invariant hopts.complete {C18}: forall q string :: (q in $seen) && node.ChildOptions[q].Name == q ==> inseq(node.ChildOptions[q], options)
+//@     invariant hopts.distinct {C18}: forall i int, j int :: 0 <= i && i < j && j < len(options) ==> options[i].Name != options[j].Name
+//@   loop "for _, section := range sections"
+//@     invariant hopts.every {C18}: forall k string :: (k in node.ChildOptions) ==> inseq(node.ChildOptions[k], options)
+//@     invariant hopts.once {C18}: forall i int, j int :: 0 <= i && i < j && j < len(options) ==> options[i] != options[j] && options[i].Name != options[j].Name
+//@     invariant hopts.records {C18}: forall i int :: 0 <= i && i < len(options) ==> options[i] != nil && (options[i].Name in node.ChildOptions) && node.ChildOptions[options[i].Name] == options[i]
+
+// Rendering helpers of the help package as used by helpOutput (pure; their own contracts are in internal/help).
+
+//@ func getCurrentNodeName
+//@   props C18 C19
+//@   requires n != nil
+//@   modifies
 
 //@ func (*GetOpt).Help
 //@   props C11 C18 C19
-//@   requires gopt != nil && gopt.programTree != nil
+//@   requires gopt != nil && gopt.programTree != nil && NodeOK(gopt.programTree) && (gopt.finalNode != nil ==> NodeOK(gopt.finalNode))
 //@   modifies
 //@   ensures len(sections) == 0 ==> result == helptext(ite(gopt.finalNode != nil, gopt.finalNode, gopt.programTree))
 
@@ -410,11 +428,13 @@ package getoptions
 //@ func type ModifyFn(parent, opt)
 //@   props C06 C12 C19
 //@   requires mod.pre: parent != nil && parent.programTree != nil && NodeOK(parent.programTree) && opt != nil && OptOK(opt)
+//@   requires mod.registered {C06,C18}: (opt.Name in Tbl(parent)) && Tbl(parent)[opt.Name] == opt
 //@   modifies opt.Aliases, opt.HelpSynopsis, opt.Description, opt.Called, opt.UsedAlias, opt.IsRequired, opt.IsRequiredErr, opt.EnvVar, opt.HelpArgName,
 //@     opt.ValidValues, opt.SuggestedValues, opt.SuggestedValuesFn, opt.DefaultStr, mapof(parent.programTree.ChildOptions),
 //@     *opt.pBool, *opt.pString, *opt.pInt, *opt.pFloat64
 //@   ensures mod.kept {C06}: forall k string :: old(k in Tbl(parent)) ==> (k in Tbl(parent)) && Tbl(parent)[k] == old(Tbl(parent)[k])
 //@   ensures mod.newkeys {C06}: forall k string :: (k in Tbl(parent)) && !old(k in Tbl(parent)) ==> Tbl(parent)[k] == opt
+//@   ensures mod.name {C18}: opt.Name == old(opt.Name)
 //@ end
 
 //@ func (*GetOpt).Alias$1
@@ -489,7 +509,7 @@ package getoptions
 // ---- help command ---------------------------------------------------------------------------------
 //@ func runHelp
 //@   props C11 C19
-//@   requires runhelp.pre: opt != nil && opt.programTree != nil && opt.programTree.Parent != nil && NodeOK(opt.programTree.Parent)
+//@   requires runhelp.pre: opt != nil && opt.programTree != nil && opt.programTree.Parent != nil && TreeOK()
 //@   modifies $out
 //@   ensures runhelp.self {C11}: len(args) == 0 ==> result == ErrorHelpCalled && $out == old($out) ++ helptext(opt.programTree.Parent)
 //@   ensures runhelp.unknown {C11}: len(args) > 0 && (forall k string :: (k in opt.programTree.Parent.ChildCommands) ==> opt.programTree.Parent.ChildCommands[k].Name != args[0])
